@@ -54,7 +54,7 @@ contract(U + "BlockBase.match",
         "tables.exc.nothing_left": "dict_subset(SYMBOL_TABLES._symbol_tables, old(SYMBOL_TABLES._symbol_tables))",
     }},
     loops={
-        0: dict(invariant=restore_inv("_k0"), types={"obj": "ref:Base?"}),
+        0: dict(invariant=restore_inv("_k0"), types={"obj": "ref:Base?"}, modifies=["view", "*.fifo_item"]),
         1: dict(invariant={
             "accounted": "old(view) == cons(content) + view",
             "counters": "0 <= i and not found_end",
@@ -68,8 +68,8 @@ contract(U + "BlockBase.match",
             "abort_class_fact": "implies(startcls is not None and (startcls == Label_Do_Stmt or startcls == Label_Do_Stmt_2008), table_name is None)",
             "lines_read": "implies(len(content) > 0, len(reader.source_lines) > 0 and 0 <= reader.linecount and reader.linecount + len(reader.filo_line) == len(reader.source_lines))",
         }, types={"obj": "ref:Base?", "start_label": "any", "end_label": "any", "start_name": "str?", "end_name": "str?", "cls": "cls"}),
-        2: dict(invariant=restore_inv("_k2"), types={"obj": "ref:Base?"}),
-        3: dict(invariant=restore_inv("_k3"), types={"obj": "ref:Base?"}),
+        2: dict(invariant=restore_inv("_k2"), types={"obj": "ref:Base?"}, modifies=["view", "*.fifo_item"]),
+        3: dict(invariant=restore_inv("_k3"), types={"obj": "ref:Base?"}, modifies=["view", "*.fifo_item"]),
     },
     serves=["C08", "C09", "C11", "C12", "C16", "C20"],
 )
